@@ -173,6 +173,19 @@ std::string edgeStr(const MEDDLY::dd_edge& e, const Kind& k);   // "N17" / "T1" 
 
 const char* errName(const MEDDLY::error& e);
 
+// Standard records understood by the generic acceptor (lean/Driver/Funcs.lean):
+//   forest <name> <fid> <kind> <policy>
+void emitForest(const std::string& name, MEDDLY::forest* F, const Kind& k, const Pol& p);
+//   table <edge> <forest> v0 v1 ...        (dd_edge::evaluate at every assignment)
+void emitTable(const std::string& ename, const std::string& fname, const Dom& D, const MEDDLY::dd_edge& e);
+//   cleardump F / node ... / roots ... / count ... / audit F   : dump of the whole node store + certificate request
+void emitAudit(const std::string& fname, MEDDLY::forest* F, const Kind& k);
+//   root <edge> <forest> <child>           : which node (and edge value) the edge points to; the acceptor
+//   evaluates it on the LAST dump of that forest with the model's eval and compares with the edge's table
+void emitRoot(const std::string& ename, const std::string& fname, const MEDDLY::dd_edge& e, const Kind& k);
+//   eq <e1> <e2> <0|1>                     : observed dd_edge::operator==
+void emitEq(const std::string& e1, const std::string& e2, const MEDDLY::dd_edge& a, const MEDDLY::dd_edge& b);
+
 // ------------------------------------------------------------------ library lifecycle helpers
 struct CTConf { int style = 0; int stale = 1; long maxSize = 0; std::string str() const; };
 void libInit(const CTConf* ct = nullptr);
